@@ -105,6 +105,8 @@ struct Peer {
 	size_t consumed = 0; // bytes the client has read
 	Bytes out_stream; // bytes the client sent on this connection
 	size_t out_parsed = 0;
+	int closed_event_gen = -1;
+	bool closed_event_gen_fired = false;
 	int frag_gen = -1; // connection on which a PDU was abandoned half-way after a failed write
 	Bytes cur_pdu_full, frag_full;
 	size_t frag_written = 0;
